@@ -481,6 +481,18 @@ example : ∀ k ns, (k, ns) ∈ obs (printCore [exD 2 "SA1000" 0 "linux", exD 2 
     exD 3 "U1000" 1 "linux", exD 3 "U1000" 1 "windows"]) ↔ (k, ns) ∈ output exRuns :=
   (out_source_order exRuns exRuns_cc _ (by decide) (by decide)).2
 
+-- non-vacuity of the two general statements: the model's own comparator with `descLt`, and a
+-- field order that differs from the model's, on a list sorted for it
+example : (okeys (obs (printCore (sortDiags (mergeRuns exRuns))))).Nodup :=
+  (out_any_desc_first_order descLt sto_descLt (fun a b => less a b = true)
+    (fun a b h => (less_iff_kLt a b).mpr (Or.inl h)) exRuns exRuns_cc _ (sortDiags_perm _)
+    (List.Pairwise.imp (fun {a b} (h : less b a = false) => by simp [h]) (sortDiags_sorted _))).2.1
+
+example : (okeys (obs (printCore [exD 2 "SA1000" 0 "linux", exD 2 "SA1000" 0 "windows",
+    exD 3 "U1000" 1 "linux", exD 3 "U1000" 1 "windows"]))).Nodup :=
+  (out_desc_first_fields [.posFile, .posLine, .posCol, .endOff, .endFile, .endLine, .endCol, .msg, .posOff, .cat, .sev, .build]
+    (by decide) exRuns exRuns_cc _ (by decide) (by decide)).1
+
 /-! ### `-f binary`: the merge key does not depend on the checkout location or on offsets -/
 
 /-- Two `-f binary` runs over checkouts of the same code at different places (and with
@@ -523,6 +535,10 @@ example : binaryRun [("SA4000", 0)] "/home/ci/src" "b" exRawUnix = binaryRun [("
       (All2.cons ⟨pA, rfl, rfl, pE, rfl, rfl, rfl, rfl, rfl, rfl⟩ All2.nil)⟩
 
 example : (binaryRun [("SA4000", 0)] "/home/ci/src" "b" exRawUnix).diags.map (fun d => d.desc.pos.file) = ["a.go", "a.go"] := by decide
+
+example : ∀ d ∈ (binaryRun [("SA4000", 0)] "/c/work/x/src" "b" exRawWin).diags, d.desc.pos.off = 0 ∧ d.desc.end_.off = 0 :=
+  binary_offsets_cleared _ _ _ exRawWin
+example : (binaryRun [("SA4000", 0)] "/c/work/x/src" "b" exRawWin).diags.length = 2 := by decide
 
 /-- one `-f binary` invocation: working directory, build name, findings -/
 abbrev BinInv := String × String × RawResult
@@ -593,6 +609,10 @@ theorem matrix_line_meaning (name arg : List Char) (hn : ∀ c ∈ name, isNameC
 def exStdin : List Char := "foo: -tags=foo\r\n\n  nofoo:  ".toList
 
 theorem exStdin_parse : parseBuildConfigs exStdin = .ok [⟨"foo", [], ["-tags=foo"]⟩, ⟨"nofoo", [], []⟩] := by decide
+
+example : All2 (fun l c => parseBuildConfig l = .ok c) (matrixLines exStdin)
+    [⟨"foo", [], ["-tags=foo"]⟩, ⟨"nofoo", [], []⟩] := ((matrix_lines exStdin).2 _).mp exStdin_parse
+example : matrixLines exStdin = ["foo: -tags=foo".toList, "nofoo:".toList] := by decide
 
 example : (matrixLines exStdin).length = 2 ∧ parseBuildConfigs (exStdin ++ ['\n']) = parseBuildConfigs exStdin :=
   ⟨by decide, matrix_trailing_newline exStdin⟩
